@@ -23,9 +23,11 @@
    The abstract specification is [astep]: the same decisions, each action applied to the
    view by a one-line map update ([aapply]).
 
-   The flag [pinned] selects how Eups.declare collects the old occurrences of a tag that
-   is being moved: [true] = the pinned tree (findProducts de-duplicated by utils.uniq on
-   (name, version, flavor), defect D14), [false] = per stack (the proposed fix).
+   The flag [pinned] selects how Eups.declare moves a tag: [true] = the pinned tree (every
+   old occurrence is unassigned, then the tag is assigned -- defect D20 -- and the occurrences
+   come from findProducts de-duplicated by utils.uniq on (name, version, flavor), defect D14),
+   [false] = the repaired code (assign first, one rewrite of the chain file; then unassign in
+   the other stacks, looked up per stack).
 
    Executable definitions only. *)
 From Eupsv Require Import Base.Base.
@@ -335,7 +337,8 @@ Fixpoint first_some {A} (l : list (option A)) : option A :=
   | None :: r => first_some r
   end.
 
-(* old occurrences of tag t of product n that Eups.declare unassigns before assigning *)
+(* old occurrences of tag t of product n that Eups.declare unassigned before assigning (the order
+   of the tree before the repair of D20, see declare_finish_old) *)
 Definition occurrences (pinned : bool) (a : adb) (n t f : str) : list str :=
   if pinned then map (fun x : str * str * str => fst (fst x)) (find_tagged_all a (apath a) n t f)
   else filter (fun r => is_some (find_tagged a [r] n t f)) (apath a).
@@ -400,13 +403,20 @@ Definition declare_plan (a : adb) (o : opts) (n v : str) (dir table t : option s
     end
   end.
 
-Definition declare_finish (pinned : bool) (a : adb) (f n v : str) (p : dplan) : res (list aact) :=
+(* the first part of a declaration: Database.declare writes the record, and the tag the product
+   carries into the chain file of the target stack *)
+Definition declare_acts1 (f n v : str) (p : dplan) : list aact :=
+  if dp_write p
+  then ASetDecl (dp_target p) n v f (dp_dir p, dp_table p) ::
+       match dp_tag p with Some x => [ASetTag (dp_target p) n x f v] | None => [] end
+  else [].
+
+(* the tag move of the tree up to and including the repair of D14: unassign every old
+   occurrence, the one in the target stack among them, then assign.  Two rewrites (or a
+   removal and a creation) of the target stack's chain file: defect D20 *)
+Definition declare_finish_old (pinned : bool) (a : adb) (f n v : str) (p : dplan) : res (list aact) :=
   let tg := dp_target p in
-  let acts1 :=
-    if dp_write p
-    then ASetDecl tg n v f (dp_dir p, dp_table p) ::
-         match dp_tag p with Some x => [ASetTag tg n x f v] | None => [] end
-    else [] in
+  let acts1 := declare_acts1 f n v p in
   match dp_tag p with
   | None => Ok acts1
   | Some x =>
@@ -419,6 +429,35 @@ Definition declare_finish (pinned : bool) (a : adb) (f n v : str) (p : dplan) : 
       | None => Err NotFound
       end
   end.
+
+(* the other stacks in which Eups.declare finds the tag after it has assigned it in stack s0:
+   for root in self.path: if root != taggedRoot and self.findTaggedProduct(n, t, root) is not None *)
+Definition other_occurrences (a : adb) (s0 n t f : str) : list str :=
+  filter (fun r => negb (str_eqb r s0) && is_some (find_tagged a [r] n t f)) (apath a).
+
+(* the repaired tag move: Eups.assignTag first (Database.assignTag replaces the flavor's entry of
+   the chain file in one rewrite) and returns the stack it wrote to; then the tag is unassigned in
+   every other stack of the path that has it, looked up after the assignment *)
+Definition declare_finish_new (a : adb) (f n v : str) (p : dplan) : res (list aact) :=
+  let tg := dp_target p in
+  let acts1 := declare_acts1 f n v p in
+  match dp_tag p with
+  | None => Ok acts1
+  | Some x =>
+      let a1 := aapply_all acts1 a in
+      (* eupsDirs = [eupsPathDirForRead, eupsPathDir]; both are the target here *)
+      match find_exact a1 [tg; tg] n v f with
+      | Some (s', _) =>
+          let a2 := aapply (ASetTag s' n x f v) a1 in
+          Ok (acts1 ++ ASetTag s' n x f v :: map (fun r => ADelTag r n x f) (other_occurrences a2 s' n x f))
+      | None => Err NotFound
+      end
+  end.
+
+(* [pinned] = the pinned tree (old order, occurrences merged across stacks: D14 and D20);
+   otherwise the code as repaired *)
+Definition declare_finish (pinned : bool) (a : adb) (f n v : str) (p : dplan) : res (list aact) :=
+  if pinned then declare_finish_old true a f n v p else declare_finish_new a f n v p.
 
 Definition declare_acts (pinned : bool) (a : adb) (o : opts) (n v : str) (dir table t : option str)
   : res (list aact) :=
@@ -586,7 +625,7 @@ Definition step_gen (pinned : bool) (d : db) (x : op) : res db :=
   | Err e => Err e
   end.
 
-(* the code with the tag move collected per stack *)
+(* the repaired code: tag move by assign-first, old occurrences collected per stack *)
 Definition effects := effects_gen false.
 Definition step := step_gen false.
 (* the pinned tree *)
